@@ -124,8 +124,8 @@ func runC17(c *Ctx) {
 			c.R.Check(bad == "", r2, name, fmt.Sprintf("lock #%d released before returning or blocking", i), c.pos(l), bad+": the receive loop and every API call deadlock on the next Lock")
 		}
 	}
-	c.R.Check(nLock >= 20, r2, "client", "session lock sites enumerated", "-", fmt.Sprintf("found %d", nLock))
-	c.R.Floor(r2, 21)
+	c.R.Check(nLock >= 18, r2, "client", "session lock sites enumerated", "-", fmt.Sprintf("found %d", nLock))
+	c.R.Floor(r2, 19)
 
 	const r3 = "C17.R3 the peer is closed only by Close (and NewClient on failure)"
 	nClose := 0
@@ -201,11 +201,19 @@ func runC17(c *Ctx) {
 			if !ok || !sel.Blocking {
 				continue
 			}
-			// a blocking hand-over whose only alternative is the client's own Done()
+			// a blocking hand-over needs an alternative that the waiter itself triggers when it gives up: the gone
+			// channel of the very waiter record the reply is sent to (closed by forgetReply, see ruleWaiterRemoved);
+			// the client's own Done() is closed only by the receive loop's exit and does not count
 			escape := false
-			for _, st := range sel.States {
-				if st.Send == nil && !strings.Contains(ir.Desc(st.Chan), "Done(%c)") {
-					escape = true
+			for _, snd := range sel.States {
+				if snd.Send == nil || !strings.HasSuffix(ir.Desc(snd.Chan), ".msgs") {
+					continue
+				}
+				gone := strings.TrimSuffix(ir.Desc(snd.Chan), ".msgs") + ".gone"
+				for _, st := range sel.States {
+					if st.Send == nil && ir.Desc(st.Chan) == gone {
+						escape = true
+					}
 				}
 			}
 			c.R.Check(escape, r6, rs, "hand-over to a waiter has an escape that does not depend on the receive loop itself", c.pos(in),
@@ -213,5 +221,5 @@ func runC17(c *Ctx) {
 		}
 	}
 	ruleWaiterRemoved(c, r6)
-	c.R.Floor(r6, 5)
+	c.R.Floor(r6, 10)
 }
